@@ -7,6 +7,9 @@ HOOK_COMMITS = subprocess.run(["git", "-C", "/repo", "log", "--format=%H", "--",
                               stdout=subprocess.PIPE, text=True).stdout.split()
 
 CLAIMED = {
+ "C16": dict(cat="proof", tech="Coq interleaving model (API calls as programs of atomic Redis steps, schedules) with permutation-invariance proofs for Bloom/Count-Min/HyperLogLog and kernel-checked witness schedules for cuckoo/Top-K; tied to the code by a go-redis-hook scheduler that replays schedules at command granularity and diffs results and final state with the extracted model",
+   text="Proved for any number of clients and every schedule: Bloom bits, Count-Min matrix and HyperLogLog registers after interleaved atomic updates equal the sequential result (generic commuting-updates theorem and its three instances). Refuted by vm_compute witnesses: cuckoo isFree/add/HINCRBY race (both succeed, one not findable, Length too large) and Top-K double ZPOPMIN. A scheduler built on a go-redis hook blocks each client before every command and follows generated schedules (and the Coq witnesses) on the real code against miniredis; results and the final state are diffed against the model's interleave for the same schedule, which also pins the command structure of each call.",
+   note="Trusted as C08 plus the scheduler (goroutine identification, hook). Pipelines are one step on the wire and k SETBIT steps in the model (schedule expanded). Connection-level reordering below command granularity and handle-local fields shared between goroutines are not modelled.", ref="6 C16"),
  "C07": dict(cat="proof", tech="Go-AST translator regenerating lock facts from /repo on every run + Coq proof of mutual exclusion for well-locked methods, re-checked on the regenerated facts by vm_compute; race detector as failing-input search",
    text="Generated/LockFacts.v is rewritten from the sources on every run; C07_facts_ok re-checks inside Coq that every exported method touching guarded state holds the lock (22 listed known findings excepted), C07_core_methods_locked pins the update/query methods; the Conc.v theorems prove that under that discipline at most one thread is inside a body and only the holder changes the state. A new unlocked access breaks the obligation; the check then runs that method against concurrent updates under -race for a replay.",
    note="Trusted: the translator, sync.RWMutex as an atomic lock, Coq kernel. Not modelled: the Go memory model below mutex granularity, the scheduler. Full serialisability (trace = concatenation of bodies) is argued from the two proved consequences, not yet a single theorem.", ref="6 C07"),
